@@ -43,6 +43,8 @@ static void run_one(int n, const EL &es, const Cfg &c) {
         dims.push_back({w, h}); t << i << " " << x << " " << y << " " << w << " " << h << "\n";
     }
     t << "#\n"; for (auto &e : es) t << e.first << " " << e.second << "\n"; string s = t.str();
+    // input class for failures to return: all node centres on one line / on one point at the start (degenerate for the stress layout HOLA begins with)
+    vector<string> abortClasses; if (!g_witness && c.start != 0 && n >= 3) abortClasses.push_back("collinear_or_coincident_start"); if (c.aspect != 2 && c.sizes) abortClasses.push_back("aspect_rotation_nonsquare");
     ctx.count("transitions"); ctx.count("evaluations");
 #ifdef C14_ARENA
     if (c.heap) mcx::heap_begin(c.heap, mcx::REUSE_NONE, 0);
@@ -95,8 +97,8 @@ static void run_one(int n, const EL &es, const Cfg &c) {
         }
         if (ncons > 0 && es.size() >= (size_t)n) ctx.count("nontrivial_runs");
         }
-    } catch (std::exception &e) { ctx.library_abort(string("exception: ") + e.what(), desc); }
-    catch (vpsc::CriticalFailure &f) { ctx.library_abort(f.what(), desc); }
+    } catch (std::exception &e) { ctx.library_abort(string("exception: ") + e.what(), desc, abortClasses); }
+    catch (vpsc::CriticalFailure &f) { ctx.library_abort(f.what(), desc, abortClasses); }
 #ifdef C14_ARENA
     if (c.heap) mcx::heap_end();
 #endif
